@@ -348,6 +348,7 @@ def cross_module(ctx, vh, rng):
                         todo.append(s2)
             reach[nd] = seen
         mj = []
+        ghosts = []
         for m in mods:
             cl = []
             for x in names[m]:
@@ -355,6 +356,16 @@ def cross_module(ctx, vh, rng):
                            "properties": [{"name": "p_%s_%s" % (m, x), "type": "int", "read": "p", "designable": True, "scriptable": True, "stored": True, "user": False, "constant": False,
                                            "final": False, "required": False, "index": None}],
                            "methods": [{"name": "f_%s_%s" % (m, x), "access": "public", "returnType": "void", "arguments": []}], "signals": [], "slots": [], "enums": []})
+            # the same class described twice in one module (metatypes passed twice, a later file re-describing a class): the LAST description is the class, for every
+            # lookup and for every class that names it as a super class, whether it was loaded before or after
+            if cl and rng.random() < 0.35:
+                k = rng.randrange(len(cl))
+                ghost = json.loads(json.dumps(cl[k]))
+                ghost["properties"][0]["name"] = "ghost_" + ghost["properties"][0]["name"]
+                ghost["methods"][0]["name"] = "ghost_" + ghost["methods"][0]["name"]
+                ghost["superClasses"] = []
+                cl.insert(rng.randrange(0, k + 1), ghost)
+                ghosts.append((m, cl[k + 1]["className"]))
             mj.append({"name": m, "imports": imports[m], "classes": cl})
         qs, want = [], []
         nodes = list(supers)
@@ -367,6 +378,10 @@ def cross_module(ctx, vh, rng):
                 want.append(d[1] if d in reach[a] else None)
                 qs.append(["method", a[0], a[1], "", "f_%s_%s" % d])
                 want.append(d[1] if d in reach[a] else None)
+        for a in nodes:
+            for (gm, gx) in ghosts:
+                qs.append(["prop", a[0], a[1], "", "ghost_p_%s_%s" % (gm, gx)])
+                want.append(None)
         cases.append({"modules": mj, "queries": qs})
         metas.append((mj, qs, want, max(len(reach[a]) for a in nodes)))
         ctx.dist("cross-module-graph-%d-modules" % k)
